@@ -112,6 +112,14 @@ class CollectFootnotes(Transform):
             + self.document.footnotes
             + self.document.autofootnotes
         ):
+            # skip a definition that is not part of the document
+            # (a directive can discard its parsed content, e.g. a figure with
+            # an invalid caption, after the footnote has been registered)
+            root = footnote
+            while root.parent is not None:
+                root = root.parent
+            if root is not self.document:
+                continue
             label = footnote.children[0]
             footnotes.append((label.astext(), footnote))
 
